@@ -1083,7 +1083,12 @@ def rule_r8(ctx) -> List[R.Inst]:
     allwh = [n for n in ast.walk(fn.node) if isinstance(n, ast.While)]
     # the sweep loop: the while nested in the loop over the note positions (a second, top-level `while <queue>:` drains the rest)
     whiles = [w for w in allwh if any(isinstance(f, ast.For) and any(x is w for x in ast.walk(f)) for f in fn.node.body)] or allwh
-    if len(whiles) == 1:
+    if len(whiles) == 1 and "bpms" not in unparse(whiles[0].test):
+        # the inner loop does not walk the tempo events (it is the NOTES that are consumed inside a loop over the events): another
+        # arrangement of the merge, not read here
+        insts.append(R.undec(rid, "sweep-cursor", file, whiles[0].lineno,
+                             "the inner sweep loop does not advance over the tempo events: this arrangement of the merge is not decided"))
+    elif len(whiles) == 1:
         bad = []
         for cond, stmts, ex in [p_ for w_ in ([whiles[0]] + [w for w in allwh if w is not whiles[0]]) for p_ in _branch_paths(w_.body)]:
             assigned = set()
@@ -1476,6 +1481,10 @@ def rule_r10(ctx) -> List[R.Inst]:
         return [R.undec(rid, "sweep", file, fn.node.lineno, "sweep loop (for <position> ...: while ...) not found")]
     q = sweep.target.id
     wh = next(x for x in ast.walk(sweep) if isinstance(x, ast.While))
+    if "bpms" in unparse(sweep.iter) and "bpms" not in unparse(wh.test):
+        # the tempo events drive the outer loop and the inner loop consumes notes: the merge the other way round — not read here
+        return [R.undec(rid, "sweep", file, wh.lineno,
+                        "the outer loop runs over the tempo events and the inner one over the notes: this arrangement of the merge is not decided")]
     # cursor: the name incremented in the while body and used as an index
     incs = [s_ for s_ in wh.body if isinstance(s_, ast.AugAssign) and isinstance(s_.target, ast.Name) and isinstance(s_.op, ast.Add)
             and isinstance(s_.value, ast.Constant) and s_.value.value == 1]
